@@ -295,3 +295,37 @@ Proof.
   split; [apply submodels_copyable_seqb_sound; rewrite Od; vm_compute; reflexivity|].
   split; [apply subsetb_sound; rewrite Oo; vm_compute; reflexivity | reflexivity].
 Qed.
+
+(* ---- hypotheses of the remaining implications are satisfiable *)
+(* deepcopy_fresh / deepcopy_sim: deep copy of the class NAMES list *)
+Example ex_deepcopy_hypotheses :
+  wf (class_heap 0 None) /\ exists h' v', deepcopy (class_heap 0 None) (VR 2%nat) = Some (h', v') /\ v' = VR 5%nat.
+Proof. split; [apply wfb_sound; vm_compute; reflexivity|]. eexists. eexists. split; vm_compute; reflexivity. Qed.
+
+(* actions_frame (footprint_within_reach): a tight operation of an instance *)
+Example ex_footprint_hypotheses :
+  let s := run_events K0 (s0 0 None) [EInit 0 (args range_span)] in
+  let acts := compile_op K0 (sh s) 5%nat (OAddVariable 207 109 [1; 2; 3]) in
+  wf (sh s) /\ (5 < length (sh s))%nat /\ tight acts = true /\ snd (run_actions (sh s) 5%nat acts) = true.
+Proof. split; [apply wfb_sound; vm_compute; reflexivity|]. vm_compute. repeat split; auto; lia. Qed.
+
+(* init_disjoint: a new instance with an immutable span *)
+Example ex_init_hypotheses :
+  wf (class_heap 0 None) /\ leaky (ia_span (args range_span)) = false /\ ia_linker (args range_span) = None /\
+  snd (init_M (class_heap 0 None) 4%nat K0 (args range_span)) = true.
+Proof. split; [apply wfb_sound; vm_compute; reflexivity|]. vm_compute. repeat split; reflexivity. Qed.
+
+(* actions_safe (path footprint): the fresh linker instance before its __init__ chain runs, and the chain after `submodels`
+   has been bound is safe *)
+Example ex_path_footprint_hypotheses :
+  let h0 := sh s_lk ++ [mkObj (KCont 8%nat) []] in
+  pinv KP (length (sh s_lk)) h0 /\
+  forallb (act_safe KP) (add_variable_acts 201 109 [1; 2; 3] ++ add_attribute_acts N_check (SDeepClass (A C_CHECK))) = true.
+Proof.
+  split; [|reflexivity].
+  split; [apply wfb_sound; vm_compute; reflexivity|].
+  split; [vm_compute; lia|].
+  split.
+  - intros i o l Li Hi Hl. apply nth_error_lt in Hi. vm_compute in Hi. vm_compute in Li. lia.
+  - eexists. split; [apply nth_error_app_new|]. split; [reflexivity|]. intros k x _ [].
+Qed.
